@@ -34,4 +34,13 @@ def render(rdflib) -> str:
     out.append("(* rdflib.compat._string_escape_map as (escape letter, code point) *)")
     pairs = "; ".join(f"({ord(k)}%N, {ord(v)}%N)" for k, v in _string_escape_map.items())
     out.append(f"Definition string_escape_map : list (N * N) := [{pairs}].")
+    import re
+
+    out.append("(* Python: the characters matched by \\s in a str pattern, and those for which str.isspace() holds *)")
+    sp = [c for c in range(0x110000) if re.match(r"\s", chr(c))]
+    isp = [c for c in range(0x110000) if chr(c).isspace()]
+    out.append("Definition py_re_space_chars : list N := [" + "; ".join(f"{c}%N" for c in sp) + "].")
+    out.append("Definition py_isspace_chars : list N := [" + "; ".join(f"{c}%N" for c in isp) + "].")
+    out.append(f"Definition nt_bufsiz : N := {int(ntriples.bufsiz)}%N.")
+    out.append("Definition nt_validate : bool := " + ("true" if ntriples.validate else "false") + ".")
     return "\n".join(out) + "\n"
